@@ -28,8 +28,7 @@ def dump(fr):
     if isinstance(fr, F.InvalidFrame):
         return 'INVALID'
     t = TYPE_NAMES[type(fr)]
-    md_flag = b01(fr.flags_metadata)
-    parts = [t, 'sid=%d' % fr.stream_id, 'I=%s' % b01(fr.flags_ignore), 'M=%s' % md_flag]
+    parts = [t, 'sid=%d' % fr.stream_id, 'I=%s' % b01(fr.flags_ignore)]
     if t == 'SETUP':
         parts += ['L=%s' % b01(fr.flags_lease), 'R=%s' % b01(fr.flags_resume), 'ver=%d.%d' % (fr.major_version, fr.minor_version),
                   'ka=%d' % fr.keep_alive_milliseconds, 'life=%d' % fr.max_lifetime_milliseconds]
